@@ -366,11 +366,19 @@ def eval_check(run, fams, rule, assumptions=None, traces=False):
 @check("C02")
 def c02(run):
     fams = ["c02chains", "c02chains3q", "c02truth", "c02empty"] if run.tier == "quick" else ["c02chains", "c02chains3", "c02truth", "c02empty"]
+    # truthiness of every node of data-supplied Go values (nil slices and maps, typed slices, pointers, structs): the
+    # truth probes of C12's families
+    dfams = ["scalars", "g1"] if run.tier == "quick" else ["scalars", "g1", "g2"]
+    dsts = run.tlc_many([dict(module="MC_Data", cfg=text_cfg(fam), name="MC_Data_" + fam, timeout=3000, workers=1) for fam in dfams])
+    for fam, st in zip(dfams, dsts):
+        path, n = run.records(st)
+        run.replay("data", path, name="data-" + fam)
     return eval_check(run, fams,
                       "every @if chain shape (0..2 @elseif, with/without @else; thorough: 3 branches and all nesting "
                       "contexts) x every vector of conditions over truthy / falsy / raising expressions of every value "
                       "kind (literal and data-supplied), at several nesting positions; the same values through ?:, "
-                      "@breakIf, @continueIf; TLC runs each program on the small-step model of machine E and the "
+                      "@breakIf, @continueIf; the truth value of every node of the Go data values of C12's families (nil "
+                      "slices and maps are empty collections); TLC runs each program on the small-step model of machine E and the "
                       "harness replays it through EvaluateString; non-trivial = model fixes output or demands an error")
 
 
@@ -387,11 +395,17 @@ def c03(run):
 @check("C04")
 def c04(run):
     fams = ["c04scopes", "c04loop"] if run.tier == "quick" else ["c04scopesall", "c04loop"]
+    # names bound by component arguments: template trees linked by TwLink and run on the same machine E
+    st = run.tlc("MC_Link", link_cfg("c04comp"), name="MC_Link_c04comp", timeout=3000, workers=2)
+    path, n = run.records(st)
+    run.replay("tree", path, name="tree-c04comp")
     return eval_check(run, fams,
                       "assignments and reads of names x, y with values of six types before / inside / after each of 9 "
                       "block skeletons (flat, if, else, each, for, each-in-if, loops binding x itself) x 4 data maps "
                       "pre-binding the names; 'loop' as assignment target and as data key; reads after the construct "
-                      "of names bound inside it; TLC checks TypeStable, LoopReserved, ScopeBalance on every state",
+                      "of names bound inside it; component uses with arguments followed by reads of the argument names "
+                      "(unknown afterwards, an outer variable of that name keeps its value, two uses with different "
+                      "types); TLC checks TypeStable, LoopReserved, ScopeBalance on every state",
                       traces=True)
 
 
@@ -493,6 +507,7 @@ def c12(run):
 def link_cfg(family):
     # c07collide: the model binds an argument over a visible name of another type (TypeStable is then not an invariant)
     collide = family == "c07collide"
+    sep = {"c07lines": "  SlotSep <- SepLines\n", "c07comment": "  SlotSep <- SepComment\n"}.get(family, "")
     return """CONSTANTS
   DevP <- DevPIntended
   Family = "%s"
@@ -501,7 +516,7 @@ def link_cfg(family):
 INVARIANTS ScopeBalance %sLoopReserved LoopMeta Gen
 PROPERTIES OutMonotone Terminates
 CHECK_DEADLOCK FALSE
-""" % (family, "  CollidePolicy <- PolicyShadow\n" if collide else "", "" if collide else "TypeStable ")
+""" % (family, ("  CollidePolicy <- PolicyShadow\n" if collide else "") + sep, "" if collide else "TypeStable ")
 
 
 def link_check(run, fam, rule, more=()):
@@ -527,14 +542,15 @@ def c06(run):
 
 @check("C07")
 def c07(run):
-    return link_check(run, "c07", more=["c07collide"], rule=
+    return link_check(run, "c07", more=["c07collide", "c07lines", "c07comment"], rule=
                       "five component files (no slot, default slot, named slots with arguments in conditions, both) x "
                       "pages with every ordered pair of 12 uses (same component twice with different arguments and "
                       "slot bodies, with and without slots), triples, uses inside @each and @if, a component inside a "
                       "slot body, inside an insert of a page with a layout, arguments shadowing an outer variable; "
                       "error trees (undeclared slot, slot passed twice, missing component, ~ alias); arguments named like "
                       "a visible variable (assigned, from the data map, loop variable, inside an insert) of another "
-                      "type: an error or the output with the argument bound, never a silently dropped argument")
+                      "type: an error or the output with the argument bound, never a silently dropped argument; every "
+                      "page again with line breaks / indentation and with comments between the slot bodies")
 
 
 @check("C18")
